@@ -813,7 +813,7 @@ func (e *Engine) Differential(K int, report map[string]bool) *DiffResult {
 						mu.Lock()
 						if !seenFP[fp] {
 							seenFP[fp] = true
-							res.Found = append(res.Found, Found{V: v, Trace: nil, State: GKey{int32(k), int32(mid)}})
+							res.Found = append(res.Found, Found{V: v, Trace: nil, State: GKey{int32(order[k]), int32(mid)}})
 						}
 						mu.Unlock()
 					}
